@@ -169,6 +169,31 @@ func H_C16_tilde() {
 	}
 }
 
+// the result of a call stays what it is when the functions are called again (a command line is built from several
+// escaped arguments): no result may live in memory that a later call reuses
+func H_C16_twice() {
+	s1 := vxString(vxParam("twiceLen"))
+	s2 := vxString(vxParam("twiceLen"))
+	c16NoNUL(s1)
+	c16NoNUL(s2)
+	var a, b string
+	if vxBool() {
+		a = ShellEscape(s1)
+	} else {
+		a = ShellEscapeExceptTilde(s1)
+	}
+	before := string(append([]byte(nil), a...)) // private copy of the first result
+	if vxBool() {
+		b = ShellEscape(s2)
+	} else {
+		b = ShellEscapeExceptTilde(s2)
+	}
+	vxAssert(a == before, "C16: an earlier result changed when the function was called again")
+	line := a + " " + b
+	_ = line
+	vxReach("two calls")
+}
+
 func H_C16_vacuity() {
 	s := vxString(2)
 	c16NoNUL(s)
